@@ -27,26 +27,43 @@ def refundOf (st : keeper_StateTransition) (q : Nat) : Nat := min ((st.initialGa
 theorem refundOf_le (st : keeper_StateTransition) (q : Nat) (hq : 0 < q) : refundOf st q ≤ (st.initialGas - st.gas) / q :=
   Nat.min_le_left _ _
 
+/-- a proof script that does not look at how the code spells `min` -/
+macro "refund_tac" st:ident q:ident hq:ident h:ident : tactic => `(tactic| (
+  rw [tie_gas_used $st $h]
+  have hq' : $q ≠ 0 := by omega
+  have hdiv : (($st).initialGas - ($st).gas) / $q ≤ ($st).initialGas - ($st).gas := Nat.div_le_self _ _
+  have hg1 := ($h).1
+  have hg2 := ($h).2
+  have ea : Go.uadd 64 ($st).gas ((($st).initialGas - ($st).gas) / $q) = ($st).gas + (($st).initialGas - ($st).gas) / $q := Go.uadd_of_lt _ _ (by omega)
+  rcases Nat.lt_trichotomy ((($st).initialGas - ($st).gas) / $q) ($st).state_GetRefund with hlt | heq | hgt
+  · have f1 : ¬ (($st).state_GetRefund < (($st).initialGas - ($st).gas) / $q) := by omega
+    have f2 : ¬ (($st).state_GetRefund ≤ (($st).initialGas - ($st).gas) / $q) := by omega
+    have f3 : (($st).initialGas - ($st).gas) / $q ≤ ($st).state_GetRefund := by omega
+    have hm : refundOf $st $q = (($st).initialGas - ($st).gas) / $q := by unfold refundOf; omega
+    cases hp : ($st).SenderPaidTheFee <;> simp [Go.udiv, hq', hlt, f1, f2, f3, hm, ea, hp]
+  · have eb : Go.uadd 64 ($st).gas ($st).state_GetRefund = ($st).gas + ($st).state_GetRefund := by rw [← heq]; exact ea
+    have hm : refundOf $st $q = ($st).state_GetRefund := by unfold refundOf; omega
+    cases hp : ($st).SenderPaidTheFee <;> simp [Go.udiv, hq', heq, hm, eb, hp]
+  · have f1 : ¬ ((($st).initialGas - ($st).gas) / $q < ($st).state_GetRefund) := by omega
+    have f2 : ¬ ((($st).initialGas - ($st).gas) / $q ≤ ($st).state_GetRefund) := by omega
+    have f3 : ($st).state_GetRefund ≤ (($st).initialGas - ($st).gas) / $q := by omega
+    have eb : Go.uadd 64 ($st).gas ($st).state_GetRefund = ($st).gas + ($st).state_GetRefund := Go.uadd_of_lt _ _ (by omega)
+    have hm : refundOf $st $q = ($st).state_GetRefund := by unfold refundOf; omega
+    cases hp : ($st).SenderPaidTheFee <;> simp [Go.udiv, hq', hgt, f1, f2, f3, hm, eb, hp]))
+
+
 /-- **`refundGas`**: the gas counter grows by exactly `min (gasUsed / q) counter`; the sender is credited
 `remaining gas × price` exactly when it paid the fee in the ante handler; the same remaining gas goes back to the gas
-pool; and the only way to panic is a zero quotient. -/
+pool; and the only way to panic is a zero quotient.  (The proof script splits on the order of the two quantities and lets
+`simp` decide every comparison, so it does not depend on how the code spells the minimum.) -/
 theorem tie_refund_gas (st : keeper_StateTransition) (q : Nat) (hq : 0 < q) (h : GasInv st) :
     ∃ obs, keeper_StateTransition_refundGas st q =
       some ({ st with gas := st.gas + refundOf st q },
             [obs] ++ (if st.SenderPaidTheFee then [Go.Effect.mk "st.state.AddBalance_st_msg_From" [((st.gas + refundOf st q : Nat) : Int) * st.gasPrice]] else [])
                   ++ [Go.Effect.mk "st.gp.AddGas" [((st.gas + refundOf st q : Nat) : Int)]]) := by
   unfold keeper_StateTransition_refundGas
-  rw [tie_gas_used st h]
-  have hq' : q ≠ 0 := by omega
-  simp only [Go.udiv, hq', if_false]
-  have hr : (if decide ((st.initialGas - st.gas) / q > st.state_GetRefund) = true then st.state_GetRefund else (st.initialGas - st.gas) / q) = refundOf st q := by
-    unfold refundOf; by_cases hh : (st.initialGas - st.gas) / q > st.state_GetRefund <;> simp [hh] <;> omega
-  simp only [hr]
-  have hle := refundOf_le st q hq
-  have hdiv : (st.initialGas - st.gas) / q ≤ st.initialGas - st.gas := Nat.div_le_self _ _
-  have hadd : Go.uadd 64 st.gas (refundOf st q) = st.gas + refundOf st q := Go.uadd_of_lt _ _ (by have := h.1; have := h.2; omega)
-  simp only [hadd]
-  by_cases hp : st.SenderPaidTheFee <;> simp [hp]
+  refund_tac st q hq h
+
 
 theorem tie_refund_gas_panics_on_zero_quotient (st : keeper_StateTransition) (h : GasInv st) :
     keeper_StateTransition_refundGas st 0 = none := by
